@@ -39,12 +39,26 @@ Proof.
   - apply Nat.leb_gt in E. destruct (Nat.eqb_spec b x), (Nat.eqb_spec a y); simpl; try reflexivity; lia.
 Qed.
 
-Theorem is_compatible_spec : forall m c opl b,
-  is_compatible m c opl = Some b ->
-  monotone_on c (placement_of c opl) = true ->
-  b = spec m c (placement_of c opl).
+Lemma sym_formula_comm : forall es x y,
+  existsb (fun e : nat * nat => ((fst e =? x) && (snd e =? y)) || ((fst e =? y) && (snd e =? x))) es =
+  existsb (fun e : nat * nat => ((fst e =? y) && (snd e =? x)) || ((fst e =? x) && (snd e =? y))) es.
+Proof. intros. apply existsb_ext_all. intros e. apply orb_comm. Qed.
+
+(* the edge in either orientation = symmetric membership in the given edge list, for EVERY pair *)
+Lemma raw_either_coupled : forall m x y,
+  raw_mem x y (edges_norm (medges m)) || raw_mem y x (edges_norm (medges m)) = coupled m x y.
 Proof.
-  intros m c opl b H Hmono. unfold is_compatible in H. unfold spec.
+  intros m x y. unfold coupled. destruct (Nat.le_gt_cases x y) as [H|H].
+  - rewrite (raw_mem_norm_le _ x y H). destruct (Nat.eq_dec x y) as [->|Hn].
+    + rewrite (raw_mem_norm_le _ y y) by lia. apply orb_diag.
+    + rewrite (raw_mem_norm_gt _ y x) by lia. apply orb_false_r.
+  - rewrite (raw_mem_norm_gt _ x y H). simpl. rewrite (raw_mem_norm_le _ y x) by lia. apply sym_formula_comm.
+Qed.
+
+Theorem is_compatible_spec : forall m c opl b,
+  is_compatible m c opl = Some b -> b = spec m c (placement_of c opl).
+Proof.
+  intros m c opl b H. unfold is_compatible in H. unfold spec.
   destruct (mn m <? cw c) eqn:E1.
   { injection H as <-. apply Nat.ltb_lt in E1. assert (E : (cw c <=? mn m) = false) by (apply Nat.leb_gt; lia).
     rewrite E. reflexivity. }
@@ -54,11 +68,11 @@ Proof.
   2:{ injection H as <-. reflexivity. }
   simpl. set (pl := placement_of c opl) in *.
   destruct (negb (wf_pl m c pl && wf_circ c)); [discriminate|].
-  rewrite existsb_negb in H.
-  assert (EQ : forallb (fun e => raw_mem (nth (fst e) pl 0) (nth (snd e) pl 0) (edges_norm (medges m))) (circ_edges c)
-             = forallb (fun e => coupled m (nth (fst e) pl 0) (nth (snd e) pl 0)) (circ_edges c)).
-  { apply forallb_ext_in. intros e He. unfold monotone_on in Hmono. rewrite forallb_forall in Hmono.
-    specialize (Hmono _ He). apply Nat.leb_le in Hmono. unfold coupled. apply raw_mem_norm_le. exact Hmono. }
+  assert (EQ : existsb (fun e => negb (raw_mem (nth (fst e) pl 0) (nth (snd e) pl 0) (edges_norm (medges m)))
+                              && negb (raw_mem (nth (snd e) pl 0) (nth (fst e) pl 0) (edges_norm (medges m))))
+                       (circ_edges c)
+             = negb (forallb (fun e => coupled m (nth (fst e) pl 0) (nth (snd e) pl 0)) (circ_edges c))).
+  { rewrite <- existsb_negb. apply existsb_ext_all. intros e. rewrite <- negb_orb, raw_either_coupled. reflexivity. }
   rewrite EQ in H.
   destruct (forallb (fun e => coupled m (nth (fst e) pl 0) (nth (snd e) pl 0)) (circ_edges c)); simpl in *.
   2:{ injection H as <-. reflexivity. }
@@ -93,8 +107,8 @@ Proof.
 Qed.
 
 Corollary is_compatible_spec_default : forall m c b,
-  wf_circ c = true -> is_compatible m c None = Some b -> b = spec m c (seq 0 (cw c)).
-Proof. intros m c b Hwf H. apply (is_compatible_spec m c None b H). apply monotone_identity. exact Hwf. Qed.
+  is_compatible m c None = Some b -> b = spec m c (seq 0 (cw c)).
+Proof. intros m c b H. exact (is_compatible_spec m c None b H). Qed.
 
 (* well-formed inputs always get an answer *)
 Lemma is_compatible_total : forall m c opl,
@@ -104,12 +118,20 @@ Proof.
   repeat match goal with |- context [if ?e then _ else _] => destruct e end; eauto.
 Qed.
 
-(* the defect: a valid placement that swaps two coupled qudits *)
+(* a valid placement that swaps two coupled qudits: answered False before repo commit cf72da2 (raw tuple against
+   sorted pairs); the fixed code and the model agree with the independent check *)
 Definition ex_model : mmodel := {| mn := 3; mgates := [0; 1]; medges := [(0, 1); (1, 2)]; mrad := [2; 2; 2] |}.
 Definition ex_circ : circ := {| cw := 2; crad := [2; 2]; cops := [{| og := 0; oloc := [0; 1] |}] |}.
-Lemma is_compatible_placement_refuted :
-  is_compatible ex_model ex_circ (Some [1; 0]) = Some false /\ spec ex_model ex_circ [1; 0] = true
-  /\ is_compatible ex_model ex_circ (Some [0; 1]) = Some true.
+Lemma is_compatible_placement_example :
+  is_compatible ex_model ex_circ (Some [1; 0]) = Some true /\ spec ex_model ex_circ [1; 0] = true
+  /\ is_compatible ex_model ex_circ (Some [0; 2]) = Some false /\ spec ex_model ex_circ [0; 2] = false.
+Proof. repeat split; reflexivity. Qed.
+
+(* ... but _is_respecting still tests the raw tuple: a block at a location listed in decreasing order is reported
+   not respecting although its qudits are coupled *)
+Lemma is_respecting_location_refuted :
+  is_respecting ex_model ex_circ [1; 0] false = false /\ is_respecting ex_model ex_circ [0; 1] false = true
+  /\ coupled ex_model 1 0 = true.
 Proof. repeat split; reflexivity. Qed.
 
 (* placeholders are gates for is_compatible: a barrier (gate id 9, not in the model) makes it answer False *)
